@@ -371,12 +371,16 @@ def convert_db(gtf_filename, genedb_filename, convert_fn, args):
                     return converted_gtf, genedb_filename
 
     if convert_fn == gtf2db:
+        # taken before the annotation is read: if the file is replaced while it is being converted,
+        # the stored entry must not match the new version
+        gtf_mtime = os.path.getmtime(gtf_filename)
         convert_fn(gtf_filename, genedb_filename, args.complete_genedb, args.gtf_check)
     else:
         convert_fn(genedb_filename, gtf_filename)
+        gtf_mtime = os.path.getmtime(gtf_filename)
     converted_gtfs[gtf_filename] = {
         'genedb': genedb_filename,
-        'gtf_mtime': os.path.getmtime(gtf_filename),
+        'gtf_mtime': gtf_mtime,
         'db_mtime': os.path.getmtime(genedb_filename),
         'complete_db': args.complete_genedb
     }
